@@ -68,46 +68,49 @@ type Fault struct {
 }
 
 type TAOpts struct {
-	VdrMode       string
-	MroPaths      []string
-	SrcPath       string
-	Psid          string
-	CrashAt       map[int]bool // crash before the event with this sequence number
-	CrashSurvive  float64      // probability an in-flight started job survives a crash
-	Faults        []*Fault
-	InlineFinish  float64 // probability a job finishes synchronously inside execJob
-	StartSeparate float64 // probability that start (log) is a separate event from finish
-	StepBias      float64 // probability of stepping when jobs are pending
-	MaxEvents     int
-	Adversarial   bool                                          // prefer finishing the most recently launched job first
-	OutsHook      func(job *TAJob, outs map[string]interface{}) // lets a property tweak stage outputs
-	FileHook      func(job *TAJob, param string, p string)      // called for every file a stage writes
-	ExtraFiles    bool                                          // stages also write files not named by outputs
-	FullReset     bool
+	VdrMode          string
+	MroPaths         []string
+	SrcPath          string
+	Psid             string
+	CrashAt          map[int]bool // crash before the event with this sequence number
+	CrashSurvive     float64      // probability an in-flight started job survives a crash
+	Faults           []*Fault
+	InlineFinish     float64 // probability a job finishes synchronously inside execJob
+	StartSeparate    float64 // probability that start (log) is a separate event from finish
+	StepBias         float64 // probability of stepping when jobs are pending
+	MaxEvents        int
+	Adversarial      bool                                          // prefer finishing the most recently launched job first
+	OutsHook         func(job *TAJob, outs map[string]interface{}) // lets a property tweak stage outputs
+	FileHook         func(job *TAJob, param string, p string)      // called for every file a stage writes
+	ExtraFiles       bool                                          // stages also write files not named by outputs
+	FullReset        bool
+	RestartAfterFail bool // after a failure: restart once (the injected fault is gone) and continue
 }
 
 type TARun struct {
-	Opts       TAOpts
-	Src        string
-	Ast        *syntax.Ast
-	PsDir      string
-	Rng        *rand.Rand
-	rt         *core.Runtime
-	jm         *core.VerifJobManager
-	ps         *core.Pipestance
-	Pending    []*TAJob
-	Jobs       []*TAJob
-	Events     []TAEvent
-	Inc        int
-	Final      string // complete | failed | stall | error:<msg>
-	ErrMsg     string
-	Launches   map[string]int
-	Written    map[string]string // file path -> content, every file a stage wrote
-	insideStep bool
-	Tracer     *SchedTracer
-	callables  map[string]string
-	LaunchHook func(job *TAJob)
-	stalls     int
+	Opts               TAOpts
+	Src                string
+	Ast                *syntax.Ast
+	PsDir              string
+	Rng                *rand.Rand
+	rt                 *core.Runtime
+	jm                 *core.VerifJobManager
+	ps                 *core.Pipestance
+	Pending            []*TAJob
+	Jobs               []*TAJob
+	Events             []TAEvent
+	Inc                int
+	Final              string // complete | failed | stall | error:<msg>
+	ErrMsg             string
+	Launches           map[string]int
+	Written            map[string]string // file path -> content, every file a stage wrote
+	insideStep         bool
+	Tracer             *SchedTracer
+	callables          map[string]string
+	LaunchHook         func(job *TAJob)
+	FailMsgs           []string
+	restartedAfterFail bool
+	stalls             int
 }
 
 func taInit() {
@@ -478,20 +481,38 @@ func (r *TARun) runStage(job *TAJob, fault string) ([]byte, error) {
 			}
 		}
 	}
+	// parameters the job is required to provide, sorted (deterministic fault site)
+	var required []*syntax.OutParam
+	switch {
+	case job.ShellName == "main" && stage.Split:
+		if stage.ChunkOuts != nil {
+			required = append(required, stage.ChunkOuts.List...)
+		}
+	case job.ShellName != "split":
+		required = append(required, stage.OutParams.List...)
+	}
+	sort.Slice(required, func(i, j int) bool { return required[i].Id < required[j].Id })
 	switch fault {
 	case "missingkey":
-		for k := range out {
-			delete(out, k)
-			break
+		if len(required) > 0 {
+			delete(out, required[0].Id)
 		}
 	case "wrongtype":
-		keys := make([]string, 0, len(out))
-		for k := range out {
-			keys = append(keys, k)
-		}
-		sort.Strings(keys)
-		if len(keys) > 0 {
-			out[keys[0]] = map[string]interface{}{"not": []interface{}{"the", "declared", 1.5}}
+		if len(required) > 0 {
+			p := required[0]
+			// a value that is ill-typed for the declared type
+			var wrong interface{} = map[string]interface{}{"not": []interface{}{"the", "declared", 1.5}}
+			if p.Tname.ArrayDim == 0 {
+				switch t := lookup.Get(p.Tname).(type) {
+				case *syntax.TypedMapType, *syntax.StructType, *syntax.UserType:
+					wrong = 17
+				case *syntax.BuiltinType:
+					if t.Id == syntax.KindMap || t.Id == syntax.KindFile || t.Id == syntax.KindPath || t.Id == syntax.KindString {
+						wrong = 17
+					}
+				}
+			}
+			out[p.Id] = wrong
 		}
 	}
 	b, err := json.Marshal(out)
@@ -656,10 +677,20 @@ func (r *TARun) Crash() error {
 	r.ps.VerifStorageBarrier()
 	r.ps = nil
 	r.rt = nil
+	r.killPending(r.Opts.CrashSurvive)
+	if r.Tracer != nil {
+		r.Tracer.emit("crash")
+	}
+	os.Remove(path.Join(r.PsDir, "_lock"))
+	return r.Restart()
+}
+
+// killPending: mrp is gone; in-flight jobs die with it unless they survive.
+func (r *TARun) killPending(surviveProb float64) {
 	deadPid := 0x7ffffff0
 	var keep []*TAJob
 	for _, j := range r.Pending {
-		survive := j.Started && r.Rng.Float64() < r.Opts.CrashSurvive
+		survive := j.Started && r.Rng.Float64() < surviveProb
 		if survive {
 			keep = append(keep, j)
 			continue
@@ -683,12 +714,7 @@ func (r *TARun) Crash() error {
 			r.Tracer.emit("killed %s", r.Tracer.jobRef(j))
 		}
 	}
-	if r.Tracer != nil {
-		r.Tracer.emit("crash")
-	}
 	r.Pending = keep
-	os.Remove(path.Join(r.PsDir, "_lock"))
-	return r.Restart()
 }
 
 // Restart: what `mrp` does when started on an existing pipestance directory.
@@ -761,6 +787,24 @@ func (r *TARun) Run() {
 		}
 		done, progress := r.stepOnce()
 		if done {
+			if r.Final == "failed" {
+				r.FailMsgs = append(r.FailMsgs, r.ErrMsg)
+				if r.Opts.RestartAfterFail && !r.restartedAfterFail {
+					r.restartedAfterFail = true
+					// jobs still in flight belong to the dead mrp's process group
+					r.killPending(0)
+					if r.Tracer != nil {
+						r.Tracer.emit("crash")
+					}
+					r.Final, r.ErrMsg = "", ""
+					if err := r.Restart(); err != nil {
+						r.Final = "error:" + err.Error()
+						return
+					}
+					idle = 0
+					continue
+				}
+			}
 			return
 		}
 		if progress || len(r.Pending) > 0 {
